@@ -500,7 +500,8 @@ Lemma repaired_shapes :
   compare_checks_rfc_size = true /\ formerr_plain_response = true /\ tsig_class_ttl_checked = true /\
   server_seq_applies_full_mac = false /\ server_code_badsig = RC_BADSIG /\ server_code_other = RC_FORMERR /\
   server_code_badtrunc = RC_BADTRUNC /\ server_mac_before_time = true /\
-  tsig_scan_all_sections = true /\ client_wrapper_validates_all = true /\ client_steps_checked = true.
+  tsig_scan_all_sections = true /\ client_wrapper_validates_all = true /\ client_steps_checked = true /\
+  remove_tsig_sets_original_id = true.
 Proof. repeat split. Qed.
 
 Lemma prior_mac_prefix_width m : length (apply_signature [] m) = (N.to_nat prior_mac_len_prefix_octets + length m)%nat.
